@@ -3,6 +3,7 @@
   attempt of the observation window ends the same way.
     ok       every listener binds                      -> started, hooks run, all addresses serve
     inuse    one address is taken (EADDRINUSE)         -> error, no hook, nothing left bound
+    notavail one address is not this host's (EADDRNOTAVAIL) -> the same
     unreach  one address keeps failing "unreachable"   -> still waiting, no hook
 -/
 import NV.Model.SvcStart
@@ -20,6 +21,7 @@ def stepSvcStart (toks : List String) : Option String :=
         match kind with
         | "ok" => some [attempt none]
         | "inuse" => some [attempt (some false)]
+        | "notavail" => some [attempt (some false)]
         | "unreach" => some (List.replicate 64 (attempt (some true)))
         | _ => none
       match atts? with
